@@ -268,6 +268,49 @@ fn socket_case(s: &Shape) -> Result<Option<(String, String)>, String> {
     Ok(None)
 }
 
+/// A header that is invalid by the property's list (here: wrong magic, non-zero data type), with a
+/// layout that would be executable if the magic and data type were right, on a real socket and a
+/// store that holds an item under the very key: nothing of it is ever executed, whatever the
+/// connection does afterwards (answer, wait, close).
+fn socket_invalid_case(s: &Shape) -> Result<Option<(String, String)>, String> {
+    let w = NetWorld::new(NetCfg { item_limit: LIMIT, ..Default::default() })?;
+    {
+        let mut c = w.connect()?;
+        c.step(&w, &Req::store(op::SET, &key_bytes(1), b"10", 7, 0, 0).opaque(1).bytes())?;
+        c.close(&w);
+    }
+    let before: Vec<(Vec<u8>, Vec<u8>, u32, u64)> = w.dump().into_iter().map(|d| (d.key, d.value, d.flags, d.cas)).collect();
+    let p0 = crate::sut::thread_panics();
+    let mut c = w.connect()?;
+    let _ = c.step(&w, &build(s));
+    w.settle();
+    let _ = c.step(&w, &Req::bare(op::NOOP).opaque(0x5f).bytes());
+    w.advance(61);
+    c.pump();
+    let name = format!("socket: magic={:#x} data_type={} op={:#x} key_len={} extras_len={} body_len={} avail={}", s.magic, s.data_type, s.opcode, s.key_len, s.extras_len, body_len(s), s.avail);
+    if crate::sut::thread_panics() - p0 > 0 {
+        let p = crate::sut::take_last_panic().unwrap_or_default();
+        let site = p.rsplit('@').next().unwrap_or("").trim().to_string();
+        return Ok(Some((format!("panic|{}", site), format!("{}: a server task panicked: {}", name, p))));
+    }
+    let after: Vec<(Vec<u8>, Vec<u8>, u32, u64)> = w.dump().into_iter().map(|d| (d.key, d.value, d.flags, d.cas)).collect();
+    if after != before {
+        return Ok(Some((
+            format!("invalid-header-executed|{}", wire::op_name(s.opcode)),
+            format!("{}: the store changed from {:?} to {:?}", name, before.iter().map(|x| (wire::show(&x.0), wire::show(&x.1))).collect::<Vec<_>>(), after.iter().map(|x| (wire::show(&x.0), wire::show(&x.1))).collect::<Vec<_>>()),
+        )));
+    }
+    if !c.eof {
+        return Ok(Some(("hang|connection-open".into(), format!("{}: connection still open after 61 s of silence", name))));
+    }
+    let mut f = w.connect()?;
+    f.step(&w, &Req::bare(op::NOOP).opaque(1).bytes())?;
+    if wire::split_responses(&f.got).0.len() != 1 || !w.server_alive() {
+        return Ok(Some(("server-down".into(), format!("{}: a fresh connection is not served afterwards", name))));
+    }
+    Ok(None)
+}
+
 /// An oversized request whose body arrives in three pieces with pipelined requests behind the
 /// last piece: the discard loop must not panic, over-read or stall.
 fn socket_split_case(opcode: u8, body_len: u32) -> Result<Option<(String, String)>, String> {
@@ -346,9 +389,26 @@ pub fn check(tier: Tier, threads: usize) -> CheckOutcome {
         })
         .cloned()
         .collect();
+    // wrong magic / data type over the socket, on a store that holds the addressed key
+    let sock_invalid: Vec<Shape> = all
+        .iter()
+        .filter(|s| (s.magic != 0x80 || s.data_type != 0) && s.opcode <= 0x26 && s.avail >= 2)
+        .cloned()
+        .collect();
+    let mut mach = None;
+    crate::watchdog::working_on("C10 socket sub-grid (invalid magic / data type)".into());
+    let ires = par_map(&sock_invalid, threads, |_, s| socket_invalid_case(s));
+    for r in ires.iter() {
+        match r {
+            Err(e) => mach = Some(e.clone()),
+            Ok(Some((sig, what))) => {
+                found.entry(sig.clone()).or_insert(Violation { signature: sig.clone(), what: what.clone(), replay: json!({"engine": "c10-socket-invalid"}) });
+            }
+            Ok(None) => {}
+        }
+    }
     crate::watchdog::working_on("C10 socket sub-grid".into());
     let sres = par_map(&sock, threads, |_, s| socket_case(s));
-    let mut mach = None;
     for r in sres {
         match r {
             Err(e) => mach = Some(e),
@@ -448,6 +508,7 @@ pub fn check(tier: Tier, threads: usize) -> CheckOutcome {
             "distinct_nontrivial": all.len() + sock.len(),
             "grid_cases_in_process": all.len(),
             "grid_cases_on_socket": sock.len(),
+            "invalid_magic_or_data_type_cases_on_socket": sock_invalid.len(),
             "oversized_three_piece_socket_cases": split_cases.len(),
             "cases_failing": failing,
             "samples": samples,
